@@ -43,7 +43,7 @@ def one(rec, hub, seed, tier, i):
                 rec.skip(S.M03, "no solvable configuration found")
                 return
             s = dsm.make_stock(fd, cfg, "StockDrivenDSM", solver="manual" if which == 2 else "lapack", lm=lm,
-                               stock=dsm.driver_values(rng, cfg["shape"], str(rng.choice(["stock", "growing"]))))
+                               stock=dsm.driver_values(rng, cfg["shape"], str(rng.choice(["stock", "growing", "scaled:growing"]))))
             s.compute()
         if hasattr(s, "lifetime_model") and rng.random() < 0.4:
             # same objects, other parameters: the identities must hold for the recomputed stock as well
